@@ -497,4 +497,5 @@ type Chan struct {
 	cap    int
 	closed bool
 	elemT  types.Type
+	ticker bool
 }
